@@ -18,6 +18,14 @@ import (
 )
 
 func init() {
+	// C13: closing a listener that never owned its address (its Listen was refused, or it was never
+	// started) leaves the socket that does listen there reachable: it carries on accepting
+	vexplore.Register("C13", func(tier string) []*vexplore.Scenario {
+		return []*vexplore.Scenario{{Name: "close-of-a-listener-that-never-owned-the-address", Mode: "enum", Reset: kit.ResetGlobals, Body: closeLoserListener, NeedCounters: []string{"winner-still-reachable"}}}
+	})
+}
+
+func init() {
 	vexplore.Register("C10", func(tier string) []*vexplore.Scenario {
 		b, d := 1, 6
 		if tier == "thorough" {
